@@ -123,7 +123,17 @@ def _alarm(sig, frm):
     raise Hang()
 
 
+WATCHDOG = {"fired": False}
+
+
 def with_watchdog(fn, seconds=30):
+    """run fn() under a SIGALRM watchdog.  The code under test may swallow or replace the Hang exception
+    (pydra re-raises its own error from a `finally`), so the firing itself is recorded in WATCHDOG."""
+    WATCHDOG["fired"] = False
+
+    def _alarm(sig, frm):
+        WATCHDOG["fired"] = True
+        raise Hang()
     signal.signal(signal.SIGALRM, _alarm)
     signal.alarm(seconds)
     try:
@@ -133,7 +143,8 @@ def with_watchdog(fn, seconds=30):
 
 
 def e3_search(part, label, spec, wfin, judge, *, bound=None, max_execs=3000, submitter_kwargs=None, faults=False,
-              pair_deliver=True, horizon_vt=60.0, watchdog=30, max_viol=3, nontrivial=True, make=None):
+              pair_deliver=True, horizon_vt=60.0, watchdog=30, max_viol=3, nontrivial=True, make=None, prepare=None,
+              monitors=()):
     """Explore the schedule space of one workflow submission under the virtual worker.
     judge(outcome, prefix) -> None | (signature, text).  outcome has .kind/.result/.exc/.explorer/.log (canonical job
     records executed)/.loop_errors.  Accounting goes to `part`."""
@@ -144,16 +155,21 @@ def e3_search(part, label, spec, wfin, judge, *, bound=None, max_execs=3000, sub
 
     def run_one(prefix):
         d = Path(tempfile.mkdtemp(dir=root))
-        tasks.reset_log(log)
         try:
+            tasks.reset_log(log)
+            if prepare is not None:
+                prepare(d)
+            tasks.reset_log(log)
             try:
                 o = with_watchdog(lambda: E.run_execution(mk, d, prefix, state_fn=E.default_state, faults=faults,
                                                           pair_deliver=pair_deliver, horizon_vt=horizon_vt,
-                                                          submitter_kwargs=submitter_kwargs), watchdog)
+                                                          submitter_kwargs=submitter_kwargs, monitors=monitors), watchdog)
             except Hang:
                 o = E.Outcome()
                 o.kind = "hang"
                 o.explorer = None
+            if WATCHDOG["fired"]:
+                o.kind = "hang"
             o.log = [canon(r) for r in log_records(tasks.read_log())]
             o.cache = d
             if o.kind != "hang":
